@@ -443,8 +443,12 @@ class Interp:
         ks = [self.evalv(k, env) for k in node.keys]
         vs = [self.evalv(v, env) for v in node.values]
         if any(v.ty != vs[0].ty for v in vs):
-            # heterogeneous values (JSON-like log records): an opaque value; only passed on to logging stubs
-            return V(TAny, self.ctx.fresh_const(z3.IntSort(), "dictlit"))
+            # heterogeneous values (JSON-like log records): an opaque value; only passed on to logging stubs.
+            # (added for C20) the one fact recorded about it: it is JSON-typed iff every key is a str and every value is
+            # JSON-typed (CallMixin.json_term); used by the spec builtin is_json()
+            d = V(TAny, self.ctx.fresh_const(z3.IntSort(), "dictlit"))
+            self.ctx.assume(z3.Function("is_json_any", z3.IntSort(), z3.BoolSort())(d.t) == z3.And(z3.BoolVal(all(k.ty == TStr for k in ks)), *[self.json_term(v) for v in vs]))
+            return d
         ty = TDict(ks[0].ty if not isinstance(ks[0].ty, TEnum) else TInt, vs[0].ty)
         d = sym.dict_empty(ty)
         dom, val = sym.dict_dom(d), sym.dict_val(d)
